@@ -246,6 +246,7 @@ struct Hooks {
   virtual void on_park(Thread *, Kind) {}
   virtual void on_clock(Thread *, int64_t ms) {}
   virtual void on_libcall(Thread *, Kind, bool child_side) {}
+  virtual void on_preempt(Thread *) {}
 };
 
 // ---------------------------------------------------------------- chooser
@@ -306,6 +307,7 @@ struct Kernel {
   uint64_t kind_calls[K_COUNT] = { 0 };
   uint64_t fired_by_kind[K_COUNT] = { 0 };
   uint64_t switches = 0, clock_jumps = 0;
+  uint64_t n_getcwd_erange = 0, n_data_at_death = 0;  // natural rare events (reach probes)
   uint64_t sched_hash = 1469598103934665603ull;
   std::vector<int> reoccupied;  // user descriptors opened by the "re-occupy" buggify action
   Thread *cur = nullptr;
